@@ -711,7 +711,9 @@ pub fn vkeywitnesses_n(g: &mut G, n: usize, rep: bool) -> Vkeywitnesses {
 pub fn vkeywitnesses(g: &mut G) -> Vkeywitnesses { let (n, rep) = fill(g); vkeywitnesses_n(g, n, rep) }
 pub fn bootstrap_witness(g: &mut G) -> BootstrapWitness {
     let n = match g.below(4) { 0 => 0, 1 => 1, _ => g.below(40) as usize };
-    BootstrapWitness::new(&vkey(g), &signature(g), g.bytes(32), g.bytes(n))
+    // the constructor takes a chain code of any length
+    let cc = match g.below(6) { 0 => 0, 1 => 31, 2 => 33, _ => 32 };
+    BootstrapWitness::new(&vkey(g), &signature(g), g.bytes(cc), g.bytes(n))
 }
 pub fn bootstrap_witnesses_n(g: &mut G, n: usize, rep: bool) -> BootstrapWitnesses {
     let mut s = BootstrapWitnesses::new(); let mut last: Option<BootstrapWitness> = None;
